@@ -149,7 +149,7 @@ theorem C01_decode_typed_partial (cx : SnbtCarrier) {τ : GoType} {k : Cls} (hτ
   (plain_roundtrip cx hτ disallow fmt name t hname ht).2 s rest hs
 
 /- OPEN: C01_encode_conforms / C01_decode_typed outside the fragment (struct types with fields promoted through
-   embedded pointers or with `,list`, interfaces holding other dynamic types than the decoder's own):
+   embedded pointers, interfaces nested inside a value held in an interface):
    the models are structural (`Model/NBTEncode`, `Model/NBTTyped`, both total functions over `Model/GoVal`) and tied
    to the code by T2, where the emitted bytes are parsed by the spec reader `parseDoc` (proved above to be the
    inverse of the grammar) and compared with the documented tree computed independently (`Driver.C01.docTree`,
